@@ -546,6 +546,8 @@ def run_shapes(ctx, mode, types, n_hist, length, maxdim, batch=10, nproc=14):
         n_hists += len(hists)
         tstat = collections.Counter()
         for start, lines in hists:
+            if lines[0].endswith("lim=1"):
+                stats["limit_histories:" + type_class(t.split("_", 1)[1])] += 1
             key = hashlib.sha256("\n".join(lines[1:]).encode()).hexdigest()
             sts, has_mut, has_set = set(), False, False
             for l in lines:
@@ -594,6 +596,11 @@ def run_shapes(ctx, mode, types, n_hist, length, maxdim, batch=10, nproc=14):
         "observations_decided": stats["ok"], "observations_mismatch": stats["MISMATCH"],
         "observations_skipped": {k[5:]: v for k, v in stats.items() if k.startswith("skip:")},
         "notes": {k[5:]: v for k, v in stats.items() if k.startswith("note:")},
+        "limit_histories": {k.split(":", 1)[1]: v for k, v in stats.items() if k.startswith("limit_histories:")},
+        "limit_history_policy": "a quarter of the histories of every bounded T place bounds / denominators at and beyond the finite range of T; "
+                                "for floating-point T such a history applies only constructors from constraint systems, add_constraints, meet, join, "
+                                "upper_bound_assign_if_exact, concatenation, dimension operators, copies and observers: the other transformers are skipped "
+                                "(counted in notes as limit-skip / limit-skip-ctor) because their behaviour at the range limit of a floating-point T is not understood yet",
         "per_type": per_type,
         "op_histogram": dict(opc), "query_histogram": dict(qc),
         "distinct_status_lines": len(statusc), "status_histogram": dict(statusc.most_common(60)),
